@@ -49,6 +49,7 @@ type tracer struct {
 	quiet     bool // do not record events (plain runs)
 	preflight bool // count probe calls and sequence results only (budget check before the judged run)
 	count     int
+	callLimit int             // C17: abort a run whose Context.CallCount() exceeds this (0: no limit)
 	trees     bool            // render full trees in top-level returns
 	watch     *watcher        // C07: re-observation of everything returned so far
 	attempts  map[[2]int]bool // failed terminal/End attempts: (pos, node)
@@ -144,6 +145,9 @@ func (t *tracer) cpJ(cp data.IntSet) []int {
 func (t *tracer) probe(id int, p parsley.Parser) parser.Func {
 	return func(ctx *parsley.Context, l data.IntMap, pos parsley.Pos) (parsley.Node, data.IntSet, parsley.Error) {
 		t.count++
+		if t.callLimit > 0 && ctx.CallCount() > t.callLimit {
+			panic(tooBig{})
+		}
 		if len(t.ev) > t.budget || (t.preflight && t.count > 2*t.budget) {
 			t.over = true
 			panic(tooBig{})
